@@ -147,7 +147,7 @@ def classify_diag(d):
     return None
 
 
-def verify_unit_once(unit, info, repo, workdir, seed=None, rlimit_mult=1, modes=None):
+def verify_unit_once(unit, info, repo, workdir, seed=None, rlimit_mult=1, modes=None, weaken=None):
     """-> dict(status=ok|fail|undecided, ...)"""
     res = {'unit': unit, 'failures': [], 'undecided': [], 'regions': [], 'functions': [], 'verified': 0, 'errors': 0,
            'canaries_ok': [], 'trusted': [], 'wall': 0.0, 'smt_us': 0, 'cmd': '', 'notes': []}
@@ -163,6 +163,17 @@ def verify_unit_once(unit, info, repo, workdir, seed=None, rlimit_mult=1, modes=
     res['notes'] = a['notes']
     text = a['text']
     lines = text.split('\n')
+    if weaken:
+        # hint lifting (see run_unit_with_retries): the ghost asserts at these lines are made trivially true, so that Verus no longer
+        # ASSUMES their claim afterwards and the obligation they were a step towards has to stand on its own
+        for k in weaken:
+            if 0 <= k < len(lines):
+                l = lines[k]
+                if re.search(r'\bassert forall\b', l) and ' implies ' in l:
+                    lines[k] = l.replace(' implies ', ' implies true || ', 1)
+                elif 'assert(' in l:
+                    lines[k] = l.replace('assert(', 'assert(true || ', 1)
+        text = '\n'.join(lines)
     path = os.path.join(workdir, unit + '.rs')
     open(path, 'w').write(text)
     res['assembled_sha256'] = hashlib.sha256(text.encode()).hexdigest()
@@ -263,7 +274,7 @@ def verify_unit_once(unit, info, repo, workdir, seed=None, rlimit_mult=1, modes=
         props = (reg['props'] if reg else None) or direc['fnprops'].get(fn) or info.get('props') or a['props']
         aux = any(re.search(p, site) or re.search(p, clause) for p in direc['aux']) or '// aux' in site or '// aux' in clause
         res['failures'].append({
-            'unit': unit, 'function': label, 'verus_fn': fn, 'kind': kind, 'message': msg, 'site': site,
+            'unit': unit, 'function': label, 'verus_fn': fn, 'kind': kind, 'message': msg, 'site': site, 'asm_line': ln,
             'site_is_real_code': bool(lm[1]), 'clause': clause, 'aux': aux, 'props': props,
             'source_file': reg['source_file'] if reg else None, 'source_line': reg['line'] if reg else None,
             'source_sha256': reg['sha256'] if reg else None,
@@ -516,6 +527,48 @@ def run_unit_with_retries(u, info, repo, wd, tier, seed):
         else:
             r['undecided'].append('rlimit exceeded after retry ladder in: ' + ', '.join(sorted({f['function'] for f in r['failures']})))
             r['failures'] = []
+    # Hint lifting.  A ghost `assert` is a step of OUR proof; Verus assumes a failed assert and goes on, so when a hint is the only thing
+    # that fails in a function the obligation it was a step towards is reported as discharged -- on the strength of an assumption.  For a
+    # function that changed by at most SMALL_EDIT lines (where the annotations still sit where they belong) the unit is verified once more
+    # with exactly those asserts made trivially true: if the function then verifies, the hint was superfluous and the failure is dropped;
+    # if a pre/postcondition or invariant fails now, THAT is the obligation the change breaks and it replaces the hint in the report.
+    def hint_only_functions(x):
+        by = {}
+        for f in x['failures']:
+            by.setdefault(f['function'], []).append(f)
+        out = {}
+        for fn, fs in by.items():
+            if all(f['kind'] == 'assert' and not f.get('site_is_real_code') and f.get('asm_line') is not None for f in fs) \
+                    and fs[0].get('changed_since_baseline') and (fs[0].get('change_size') or 0) <= SMALL_EDIT and not fs[0].get('fallback'):
+                out[fn] = fs
+        return out
+    ho = hint_only_functions(r)
+    if ho and not r.get('fallback') and not any(u2.startswith('verus front-end error') or u2.startswith('assemble') for u2 in r['undecided']):
+        weak = set()
+        cur = r
+        for _round in range(3):
+            hoc = hint_only_functions(cur)
+            new_lines = {f['asm_line'] for fs in hoc.values() for f in fs} - weak
+            if not new_lines:
+                break
+            weak |= new_lines
+            cur = verify_unit_once(u, info, repo, wd, weaken=weak)
+            attempts.append(cur)
+            if any(u2.startswith('verus front-end error') or u2.startswith('assemble') for u2 in cur['undecided']):
+                cur = None
+                break
+        if cur is not None and cur is not r:
+            lifted = [f for f in cur['failures'] if f['function'] in ho and not (f['kind'] == 'assert' and not f.get('site_is_real_code'))]
+            remaining_hints = [f for f in cur['failures'] if f['function'] in ho and f['kind'] == 'assert' and not f.get('site_is_real_code')]
+            if lifted:
+                for f in lifted:
+                    f['lifted_from_hint'] = True
+                    f['message'] = f['message'] + ' (once the failing proof step of this function is no longer assumed)'
+                r['failures'] = [f for f in r['failures'] if f['function'] not in ho] + lifted
+                r['notes'] = r.get('notes', []) + ['hint lifting: failing proof steps of %s were made trivial and the unit verified again' % ', '.join(sorted(ho))]
+            elif not remaining_hints:
+                r['failures'] = [f for f in r['failures'] if f['function'] not in ho]
+                r['notes'] = r.get('notes', []) + ['hint lifting: %s verifies without the proof steps that failed (superfluous hints)' % ', '.join(sorted(ho))]
     # Failures in UNCHANGED functions.  Verification is modular: an unchanged function is checked against its own (unchanged) body, the
     # contracts of its callees and the spec functions, which are template text.  Unless an item whose body other obligations can see
     # changed (a type definition, executable text also used as a spec function), its obligations are textually the ones discharged on the
